@@ -88,6 +88,14 @@ def main():
             meta = json.load(open(os.path.join(o, "meta.json")))
             dd = {k: r for k, r in det.get(name, {}).items() if not k.startswith("_") and k.startswith("C")}
             alarms = {c: r["rules"] for c, r in dd.items() if r["exit"] == 1}
+            if os.path.exists(os.path.join(d, "base")):
+                # the patch no longer applies to HEAD and was evaluated on an older commit: what that commit raises by itself
+                # (defects repaired later: D12, D8b-D8d) is not an alarm on the patch
+                BASE_ALARMS = {"C14": {"T14.10", "T14.4", "T14.5"}, "C20": {"R20.6"}, "C03": {"L3.3"}}
+                inherited = {c: sorted(set(r) & BASE_ALARMS.get(c, set())) for c, r in alarms.items() if set(r) & BASE_ALARMS.get(c, set())}
+                alarms = {c: sorted(set(r) - BASE_ALARMS.get(c, set())) for c, r in alarms.items() if set(r) - BASE_ALARMS.get(c, set())}
+                if inherited:
+                    meta["alarms_of_the_base_commit_itself"] = inherited
             meta["id"] = name
             meta["author"] = "independent sub-agent asked for a behaviour-preserving change (all 20 property texts given), full test suite passing"
             meta["checks"] = {"run": sorted(dd), "alarms": alarms}
